@@ -23,6 +23,7 @@ fn main() {
         "C05" => props::c05::run(&cfg),
         "C08" => props::c08::run(&cfg),
         "C09" => props::c09::run(&cfg),
+        "C10" => props::c10::run(&cfg),
         "C16" => props::c16::run(&cfg),
         "C17" => props::c17::run(&cfg),
         "play" => tools::play_cmd(&args),
